@@ -3,7 +3,7 @@
 cd "$(dirname "$0")/.."
 for seed in ${@:-1 2 3 5 8 13 21 34}; do
   for id in $(python3 -c "import json; print(' '.join(c['property_id'] for c in json.load(open('MANIFEST.json'))['checks']))"); do
-    out=$(VERIF_SEED=$seed VERIF_EVIDENCE_DIR=/tmp/sweep_ev ./check $id --tier quick 2>&1); rc=$?
+    out=$(VERIF_SEED=$seed VERIF_EVIDENCE_DIR=/tmp/sweep_ev VERIF_REPLAY_DIR=/tmp/sweep_rp ./check $id --tier quick 2>&1); rc=$?
     [ $rc -ne 0 ] && { echo "seed=$seed $id exit=$rc"; echo "$out" | grep -v "^\[" | head -4 | cut -c1-300; }
   done
   echo "seed $seed done"
